@@ -131,7 +131,10 @@ func walkSDRs(ctx context.Context, s Session) (SDRRepository, error) {
 				return nil, fmt.Errorf("packet is missing Full Sensor Record layer: %v",
 					getSDRCmd)
 			}
-			repo[getSDRCmd.Req.RecordID] = fsrLayer.(*ipmi.FullSensorRecord)
+			// key by the ID in the record's own header rather than the one we
+			// asked for: the first record is requested as ipmi.RecordIDFirst
+			// (0x0000), which need not be its ID
+			repo[header.ID] = fsrLayer.(*ipmi.FullSensorRecord)
 		}
 
 		getSDRCmd.Req.RecordID = getSDRCmd.Rsp.Next
